@@ -18,6 +18,7 @@ EXPLANATION = (
     "must be guarded by the documented credit predicate. Not decided: the trace-level clause ('a producer "
     "following the documented loop never has more than one window unacknowledged') which quantifies over histories."
     ' credit-predicate and cancel-first apply to every function returning Result<_, CreditError>; a store to sent_offset is monotone (guarded, max, or sent_offset + x) or a rewind followed on every path by acked_offset = min(acked_offset, sent_offset).'
+    " Every crate function that calls record_ack hands it one acknowledgement frame's (file, offset) pair: loop-carried operands must re-seed the offset wherever the file operand is re-assigned."
 )
 ASSUMPTIONS = [
     "std::sync::Mutex gives mutual exclusion; u64::min / saturating_sub have their std semantics",
@@ -111,7 +112,9 @@ def run(facts, R):
                 dv = sym.rvalue(d[3])
                 dfs = facts_at(b, sym, facts, d[1])
                 okd = okd and (_is_f(dv, "sent_offset") or has_cmp(dfs, "Le", lambda a: a == dv, lambda x: _is_f(x, "sent_offset"))
-                               or has_cmp(dfs, "Lt", lambda a: a == dv, lambda x: _is_f(x, "sent_offset")))
+                               or has_cmp(dfs, "Lt", lambda a: a == dv, lambda x: _is_f(x, "sent_offset"))
+                               or _is_f(dv, "acked_offset")        # (the running best starts at the current value: acked <= sent is the invariant kept)
+                               or (is_call(dv, "std::cmp::Ord::min", "core::cmp::Ord::min", "min") and any(_is_f(a, "sent_offset") for a in dv[2])))
             if okd:
                 bounded, why = True, "every alternative of the stored value is sent_offset or <= sent_offset"
         R.check(bounded, "acked-le-sent", fn, "acked_offset<=sent_offset",
@@ -132,6 +135,19 @@ def run(facts, R):
         cur = has_cmp(fs, "Eq", lambda a: _is_f(a, "current_file_index"), lambda x: x[0] in ("arg", "local")) or \
             has_cmp(fs, "Eq", lambda a: _is_f(a, "current_file_index"), lambda x: x[0] == "field" and not any(y[0] == "field" and y[2] in ("current_file_index", "acked_offset", "sent_offset") for y in walk(x))
                     and any(y[0] == "arg" for y in walk(x)))       # (an element of a caller-supplied batch: `(file_index, offset)` taken from the slice argument)
+        if not cur and val[0] == "local" and len(b.defs_of(val[1])) > 1:
+            # a running best over a batch: every candidate other than the current value itself was taken from an entry of the current file
+            cur = True
+            for d in b.defs_of(val[1]):
+                if d[0] != "assign":
+                    cur = False
+                    break
+                dv = sym.rvalue(d[3])
+                if _is_f(dv, "acked_offset"):
+                    continue
+                dfs = facts_at(b, sym, facts, d[1])
+                cur = cur and (has_cmp(dfs, "Eq", lambda a: _is_f(a, "current_file_index"), lambda x: x[0] in ("arg", "local")) or
+                               has_cmp(dfs, "Eq", lambda a: _is_f(a, "current_file_index"), lambda x: x[0] == "field" and any(y[0] == "arg" for y in walk(x))))
         R.check(cur, "ack-guards", fn, "acked_offset-current-file",
                 "store acked_offset = %s is not guarded by file_index == current_file_index; guards: %s"
                 % (vtxt, texts(fs)), w["span"], "guarded by file_index == current_file_index")
